@@ -371,6 +371,7 @@ type toyDecompressor struct {
 	isReset bool
 	expand  int // >1: each byte is emitted expand times (decompression bomb model)
 	pend    []byte
+	count   *int // total bytes produced (shared counter), may be nil
 }
 
 func (d *toyDecompressor) Reset(r io.Reader) error {
@@ -428,6 +429,9 @@ func (d *toyDecompressor) Read(p []byte) (int, error) {
 	}
 	c := copy(p, out)
 	d.pend = out[c:]
+	if d.count != nil {
+		*d.count += k
+	}
 	return c, nil
 }
 
@@ -470,6 +474,7 @@ type fakeConfig struct {
 	expand      int
 	unknown     bool
 	failMarshal bool
+	decompCount *int
 }
 
 func toyCodecOption(name string, text bool, cfg *fakeConfig) TranscoderOption {
@@ -488,7 +493,7 @@ func toyCompressionOption(cfg *fakeConfig) TranscoderOption {
 	return transcoderOptionFunc(func(opts *transcoderOptions) {
 		opts.compressors[CompressionGzip] = newCompressionPool(CompressionGzip,
 			func() connect.Compressor { return &toyCompressor{} },
-			func() connect.Decompressor { return &toyDecompressor{expand: cfg.expand} })
+			func() connect.Decompressor { return &toyDecompressor{expand: cfg.expand, count: cfg.decompCount} })
 	})
 }
 
